@@ -80,6 +80,14 @@ func propC20(g *G, n int) {
 			}
 		}
 	}
+	// byte slices handed out belong to the caller: overwriting them must not change what later calls return
+	for i := 0; i < n/8+8; i++ {
+		x := g.decimal()
+		if i < 8 {
+			x = []dec{{0, 0x7c00_0000_0000_0000}, {0, 0xfc00_0000_0000_0000}, {0, 0x7800_0000_0000_0000}, {0, 0xf800_0000_0000_0000}, {0, 0}, {0, 1 << 63}, {1, 0x3040_0000_0000_0000}, {5, 0xb03e_0000_0000_0000}}[i]
+		}
+		scribbleCheck(g, x)
+	}
 	// public API with extreme precisions, widths and lengths; inputs must come back unmodified
 	for i := 0; i < n/4+1; i++ {
 		x := g.decimal().String()
@@ -177,5 +185,47 @@ func raceMode(g *G, n int) {
 	fmt.Printf("RACE jobs=%d goroutines=32 mismatches=%d\n", len(jobs), bad)
 	if bad != 0 {
 		os.Exit(1)
+	}
+}
+
+// scribbleCheck calls every function that returns a byte slice (or a string built over one), overwrites the
+// returned bytes in place, and calls again: a different second answer means the first result aliased shared state.
+func scribbleCheck(g *G, x dec) {
+	d := toDec(x.String())
+	verb := "efgEG"[g.pick(5)]
+	prec := []int{-1, 0, 3}[g.pick(3)]
+	spec := []string{"v", "g", "e", "10.3f", "-8g"}[g.pick(5)]
+	type fn struct {
+		name string
+		call func() []byte
+	}
+	fns := []fn{
+		{"MarshalText", func() []byte { b, _ := d.MarshalText(); return b }},
+		{"MarshalJSON", func() []byte { b, _ := d.MarshalJSON(); return b }},
+		{"MarshalBinary", func() []byte { b, _ := d.MarshalBinary(); return b }},
+		{"Append", func() []byte { return d128.Append(nil, d, verb, prec) }},
+		{"Decimal.Append", func() []byte { return d.Append(nil, spec) }},
+		{"Decompose", func() []byte { _, _, b, _ := d.Decompose(nil); return b }},
+	}
+	for _, f := range fns {
+		s0 := d.String()
+		f0 := d128.Format(d, verb, prec)
+		b1 := f.call()
+		want := string(b1)
+		for k := range b1 {
+			b1[k] = '?'
+		}
+		b2 := f.call()
+		st.Evaluations++
+		st.PerOp["scribble."+f.name]++
+		if string(b2) != want {
+			record(0, "NONDET", []string{"scribble." + f.name, x.String()}, []string{sBytes([]byte(want)), sBytes(b2)})
+		}
+		if s1 := d.String(); s1 != s0 || s0 == "" {
+			record(0, "NONDET", []string{"scribble." + f.name + "-changes-String", x.String()}, []string{sBytes([]byte(s0)), sBytes([]byte(s1))})
+		}
+		if f1 := d128.Format(d, verb, prec); f1 != f0 {
+			record(0, "NONDET", []string{"scribble." + f.name + "-changes-Format", x.String()}, []string{sBytes([]byte(f0)), sBytes([]byte(f1))})
+		}
 	}
 }
